@@ -145,6 +145,21 @@ def specLeafNode (k : Kind) (name : Nat) (kids : List Nat) : Leaf → Bool
     k == .document && (match kids with | [e] => specName nt e | _ => false)
   | _ => false
 
+/-- the type annotation of a node built without a schema is `xs:untyped` (elements) resp. `xs:untypedAtomic`
+(attributes) (XDM 3.1 §6.2.4, §6.3.4); `derives-from(annotation, T)`: xs:untyped is derived from xs:anyType only;
+xs:untypedAtomic from xs:anyAtomicType, xs:anySimpleType, xs:anyType.  (An untyped element is never nilled,
+so `T?` and `T` agree.) -/
+def specTypeArg (st : SpecTables) (k : Kind) (ta : TyArg) : Bool :=
+  match k, ta with
+  | .element, .untyped => true
+  | .element, .anyType => true
+  | .attribute, .anyType => true
+  | .attribute, .anySimpleType => true
+  | .attribute, .atomic t => (match st.atomTy t with
+      | some ty => derives .untypedAtomic ty
+      | none => false)
+  | _, _ => false
+
 /-- an item against a leaf item type -/
 def specLeaf (st : SpecTables) (l : Leaf) : Item → Bool
   | .atom c =>
@@ -156,6 +171,8 @@ def specLeaf (st : SpecTables) (l : Leaf) : Item → Bool
   | .node k name kids _ =>
     (match l with
      | .item => true
+     | .kindT k' nt ta _ =>      -- §2.5.5.3 element(N, T) / §2.5.5.5 attribute(N, T): name and type annotation
+       k == k' && specName nt name && specTypeArg st k ta
      | l => specLeafNode k name kids l)
   | .func _ _ => (match l with | .item => true | .funcAny => true | _ => false)
   | .map _ => (match l with | .item => true | .funcAny => true | .mapAny => true | _ => false)
